@@ -85,7 +85,8 @@ def run(res, tier, build_ok):
     def observe(dev, cmd, raw):
         """-> (outcome text, exception object or None)"""
         try:
-            dev.execute(cmd, en_raw_sense=raw)
+            with common.time_limit(5.0):        # a Stalled escapes to check.py: "the implementation does not terminate"
+                dev.execute(cmd, en_raw_sense=raw)
             return "returned", None
         except Exception as e:
             return "raised:" + type(e).__name__, e
@@ -215,7 +216,8 @@ def run(res, tier, build_ok):
                 del iscsi.LOG[:]
                 del sgio.CALLS[:]
                 try:
-                    cmd = getattr(fac, meth)(**kw)
+                    with common.time_limit(5.0):
+                        cmd = getattr(fac, meth)(**kw)
                     out, exc = "returned", None
                 except Exception as e:
                     cmd, out, exc = None, "raised:" + type(e).__name__, e
